@@ -165,9 +165,11 @@ Theorem typed_calls_are_insert_sorted cfg l id o :
 Proof.
   unfold cfg_goodb. intros Hc Hs Hg.
   repeat (apply andb_true_iff in Hc as [Hc ?]).
-  destruct o as [| | | | |c|]; cbn [step_cfg step_ref op_class]; try reflexivity.
+  destruct o as [| | | | | |c|]; cbn [step_cfg step_ref op_class]; try reflexivity.
   - eapply place_good_sound; eauto using no_gen_five.
   - eapply place_good_sound; eauto using no_gen_five.
+  - match goal with H : fmt_clears_first cfg = true |- _ => rewrite H end.
+    eapply place_good_sound; eauto using clear_sorted, clear_fmt_four.
   - match goal with H : fmt_clears_first cfg = true |- _ => rewrite H end.
     eapply place_good_sound; eauto using clear_sorted, clear_fmt_four.
   - eapply place_good_sound; eauto using no_gen_five.
@@ -266,7 +268,12 @@ Proof.
   { intros c'. destruct (cls_eqb c c') eqn:E.
     - apply cls_eqb_eq in E. subst c'. apply of_class_insert_same, Hs.
     - apply of_class_insert_other. cbn. apply cls_eqb_neq in E. congruence. }
-  destruct o as [| | | | |c'|]; cbn [step_ref log_step op_class]; try apply Hins.
+  destruct o as [| | | | | |c'|]; cbn [step_ref log_step op_class]; try apply Hins.
+  - destruct (cls_eqb c Fmt) eqn:E.
+    + apply cls_eqb_eq in E. subst c. rewrite of_class_insert_same by (apply clear_sorted, Hs).
+      rewrite of_class_clear_same. reflexivity.
+    + apply cls_eqb_neq in E. rewrite of_class_insert_other by (cbn; congruence).
+      apply of_class_clear_other, E.
   - destruct (cls_eqb c Fmt) eqn:E.
     + apply cls_eqb_eq in E. subst c. rewrite of_class_insert_same by (apply clear_sorted, Hs).
       rewrite of_class_clear_same. reflexivity.
@@ -306,26 +313,29 @@ Proof.
 Qed.
 
 (* ---- theorem 2: a complete characterisation of the list after any history ---- *)
-Fixpoint run_ref_from (l : list hnd) (id : nat) (ops : list op) : list hnd :=
-  match ops with [] => l | o :: t => run_ref_from (step_ref l id o) (S id) t end.
+Fixpoint run_ref_from (l : list hnd) (lastf : option nat) (id : nat) (ops : list op) : list hnd :=
+  match ops with
+  | [] => l
+  | o :: t => run_ref_from (step_ref l (hid lastf id o) o) (next_lastf lastf id o) (S id) t
+  end.
 
-Lemma run_from_is_ref cfg : cfg_goodb cfg = true -> forall ops l id, sorted l -> no_gen l ->
-  run_from cfg l id ops = run_ref_from l id ops.
+Lemma run_from_is_ref cfg : cfg_goodb cfg = true -> forall ops l lastf id, sorted l -> no_gen l ->
+  run_from cfg l lastf id ops = run_ref_from l lastf id ops.
 Proof.
-  intros Hc. induction ops as [|o ops IH]; intros l id Hs Hg; [reflexivity|].
+  intros Hc. induction ops as [|o ops IH]; intros l lastf id Hs Hg; [reflexivity|].
   cbn [run_from run_ref_from]. rewrite typed_calls_are_insert_sorted by assumption.
   apply IH; [apply step_ref_sorted|apply step_ref_no_gen]; assumption.
 Qed.
-Lemma run_ref_inv : forall ops l id, sorted l -> no_gen l ->
-  sorted (run_ref_from l id ops) /\ no_gen (run_ref_from l id ops).
+Lemma run_ref_inv : forall ops l lastf id, sorted l -> no_gen l ->
+  sorted (run_ref_from l lastf id ops) /\ no_gen (run_ref_from l lastf id ops).
 Proof.
-  induction ops as [|o ops IH]; intros l id Hs Hg; [split; assumption|].
+  induction ops as [|o ops IH]; intros l lastf id Hs Hg; [split; assumption|].
   cbn [run_ref_from]. apply IH; [apply step_ref_sorted|apply step_ref_no_gen]; assumption.
 Qed.
-Lemma run_ref_class c : forall ops l id, sorted l ->
-  of_class c (run_ref_from l id ops) = log_from c (of_class c l) id ops.
+Lemma run_ref_class c : forall ops l lastf id, sorted l ->
+  of_class c (run_ref_from l lastf id ops) = log_from c (of_class c l) lastf id ops.
 Proof.
-  induction ops as [|o ops IH]; intros l id Hs; [reflexivity|].
+  induction ops as [|o ops IH]; intros l lastf id Hs; [reflexivity|].
   cbn [run_ref_from log_from]. rewrite IH by (apply step_ref_sorted; exact Hs).
   rewrite of_class_step_ref by exact Hs. reflexivity.
 Qed.
@@ -335,7 +345,7 @@ Proof.
   intros Hc. unfold run_cfg, spec_list, class_log.
   assert (Hs : sorted []) by constructor. assert (Hg : no_gen []) by constructor.
   rewrite run_from_is_ref by assumption.
-  destruct (run_ref_inv ops [] 0 Hs Hg) as [Hs' Hg'].
+  destruct (run_ref_inv ops [] None 0 Hs Hg) as [Hs' Hg'].
   rewrite (sorted_decomp _ Hs' Hg') at 1.
   rewrite !run_ref_class by exact Hs. reflexivity.
 Qed.
@@ -355,49 +365,63 @@ Proof.
   apply andb_true_iff in Hi as [H1 H2]. rewrite (IH H2 Hbt), andb_true_r.
   destruct t as [|b t]; cbn [app]; [apply Nat.ltb_lt, Ha|exact H1].
 Qed.
-Lemma log_step_inv c lg id o : ids_increasing lg = true -> ids_below id lg ->
-  ids_increasing (log_step c lg id o) = true /\ ids_below (S id) (log_step c lg id o).
+Lemma hid_le lastf id o : (forall f, lastf = Some f -> f < id) -> hid lastf id o <= id.
+Proof. intros H. destruct o, lastf as [f|]; cbn; try lia. specialize (H f eq_refl). lia. Qed.
+Lemma hid_fresh lastf id o : op_class o <> Some Fmt -> hid lastf id o = id.
+Proof. destruct o, lastf; cbn; congruence. Qed.
+Lemma log_step_inv c lg id h o : h <= id -> (op_class o <> Some Fmt -> h = id) ->
+  ids_increasing lg = true -> ids_below id lg ->
+  ids_increasing (log_step c lg h o) = true /\ ids_below (S id) (log_step c lg h o).
 Proof.
-  intros Hi Hb.
+  intros Hh Hfresh Hi Hb.
   assert (Hb' : ids_below (S id) lg).
   { unfold ids_below in *. rewrite Forall_forall in *. intros y Hy. specialize (Hb y Hy). lia. }
-  assert (Hsn : ids_increasing (lg ++ [(c, id)]) = true /\ ids_below (S id) (lg ++ [(c, id)])).
-  { split; [apply ids_increasing_snoc; assumption|]. apply Forall_app. split; [exact Hb'|].
+  assert (Hsn : h = id -> ids_increasing (lg ++ [(c, h)]) = true /\ ids_below (S id) (lg ++ [(c, h)])).
+  { intros ->. split; [apply ids_increasing_snoc; assumption|]. apply Forall_app. split; [exact Hb'|].
     constructor; [cbn; lia|constructor]. }
   assert (Hnil : ids_increasing [] = true /\ ids_below (S id) []) by (split; [reflexivity|constructor]).
-  destruct o as [| | | | |c'|]; cbn [log_step op_class];
-    try (destruct (cls_eqb c _); [exact Hsn || exact Hnil|split; assumption]); try exact Hnil.
-  destruct (cls_eqb c Fmt); [|split; assumption].
-  split; [reflexivity|]. constructor; [cbn; lia|constructor].
+  assert (Hone : ids_increasing [(Fmt, h)] = true /\ ids_below (S id) [(Fmt, h)]).
+  { split; [reflexivity|]. constructor; [cbn; lia|constructor]. }
+  destruct o as [| | | | | |c'|]; cbn [log_step op_class] in *;
+    try (destruct (cls_eqb c _); [(apply Hsn, Hfresh; discriminate) || exact Hnil || exact Hone|split; assumption]);
+    try exact Hnil.
 Qed.
-Lemma log_from_inv c : forall ops lg id, ids_increasing lg = true -> ids_below id lg ->
-  ids_increasing (log_from c lg id ops) = true.
+Lemma next_lastf_below lastf id o : (forall f, lastf = Some f -> f < id) ->
+  forall f, next_lastf lastf id o = Some f -> f < S id.
 Proof.
-  induction ops as [|o ops IH]; intros lg id Hi Hb; [exact Hi|].
-  cbn [log_from]. destruct (log_step_inv c lg id o Hi Hb) as [H1 H2]. apply IH; assumption.
+  intros H f E. assert (Hl := hid_le lastf id o H).
+  destruct o; cbn [next_lastf] in E; try (specialize (H f E); lia); injection E as <-;
+    cbn [hid] in *; destruct lastf as [g|]; try specialize (H g eq_refl); lia.
+Qed.
+Lemma log_from_inv c : forall ops lg lastf id, (forall f, lastf = Some f -> f < id) ->
+  ids_increasing lg = true -> ids_below id lg -> ids_increasing (log_from c lg lastf id ops) = true.
+Proof.
+  induction ops as [|o ops IH]; intros lg lastf id Hf Hi Hb; [exact Hi|].
+  cbn [log_from].
+  destruct (log_step_inv c lg id (hid lastf id o) o (hid_le _ _ _ Hf) (hid_fresh _ _ _) Hi Hb) as [H1 H2].
+  apply IH; [apply next_lastf_below, Hf|assumption|assumption].
 Qed.
 Theorem class_log_in_insertion_order c ops : ids_increasing (class_log c ops) = true.
-Proof. apply log_from_inv; [reflexivity|constructor]. Qed.
+Proof. apply log_from_inv; [discriminate|reflexivity|constructor]. Qed.
 
 Lemma fmt_log_step lg id o : length lg <= 1 -> length (log_step Fmt lg id o) <= 1.
 Proof.
-  intros H. destruct o as [| | | | |c'|]; cbn [log_step op_class]; try exact H;
+  intros H. destruct o as [| | | | | |c'|]; cbn [log_step op_class]; try exact H;
     try (destruct (cls_eqb Fmt _); [cbn; lia|exact H]); cbn; lia.
 Qed.
-Lemma fmt_log_from : forall ops lg id, length lg <= 1 -> length (log_from Fmt lg id ops) <= 1.
+Lemma fmt_log_from : forall ops lg lastf id, length lg <= 1 -> length (log_from Fmt lg lastf id ops) <= 1.
 Proof.
-  induction ops as [|o ops IH]; intros lg id H; [exact H|]. cbn [log_from]. apply IH, fmt_log_step, H.
+  induction ops as [|o ops IH]; intros lg lastf id H; [exact H|]. cbn [log_from]. apply IH, fmt_log_step, H.
 Qed.
 Theorem at_most_one_formatter ops : length (class_log Fmt ops) <= 1.
 Proof. apply fmt_log_from. cbn. lia. Qed.
-Lemma log_from_class c : forall ops lg id, Forall (fun y : hnd => fst y = c) lg ->
-  Forall (fun y : hnd => fst y = c) (log_from c lg id ops).
+Lemma log_from_class c : forall ops lg lastf id, Forall (fun y : hnd => fst y = c) lg ->
+  Forall (fun y : hnd => fst y = c) (log_from c lg lastf id ops).
 Proof.
-  induction ops as [|o ops IH]; intros lg id H; [exact H|]. cbn [log_from]. apply IH.
-  destruct o as [| | | | |c'|]; cbn [log_step op_class]; try (destruct (cls_eqb c _) eqn:E); try exact H;
-    try (apply Forall_app; split; [exact H|constructor; [reflexivity|constructor]]); try constructor.
-  - apply cls_eqb_eq in E. subst c. reflexivity.
-  - constructor.
+  induction ops as [|o ops IH]; intros lg lastf id H; [exact H|]. cbn [log_from]. apply IH.
+  destruct o as [| | | | | |c'|]; cbn [log_step op_class]; try (destruct (cls_eqb c _) eqn:E); try exact H;
+    try (apply Forall_app; split; [exact H|constructor; [reflexivity|constructor]]); try constructor;
+    try (apply cls_eqb_eq in E; subst c; reflexivity); try constructor.
 Qed.
 Lemma class_log_class c ops : Forall (fun y => fst y = c) (class_log c ops).
 Proof. apply log_from_class. constructor. Qed.
